@@ -11,7 +11,16 @@ use std::collections::{BTreeMap, BTreeSet};
 use std::io::{BufRead, BufReader, Write};
 use std::process::{Command, Stdio};
 
-pub const VERIF_DIR: &str = "/verif";
+/// output root (evidence, replays, work, known findings); VERIF_OUT overrides it so that seeded
+/// changes can be evaluated in a scratch copy without touching /verif
+pub fn verif_dir() -> String {
+    std::env::var("VERIF_OUT").unwrap_or_else(|_| "/verif".to_string())
+}
+
+/// root of the repository under test (corpus files); VERIF_REPO overrides it
+pub fn repo_dir() -> String {
+    std::env::var("VERIF_REPO").unwrap_or_else(|_| "/repo".to_string())
+}
 
 #[derive(Clone, Debug)]
 pub struct CheckCfg {
@@ -30,9 +39,9 @@ pub fn check_cfg(id: &str, tier: &str) -> Option<CheckCfg> {
     let ms = if thorough { 250 } else { 60 };
     use Backend::*;
     Some(match id {
-        "C06" => CheckCfg { id: id.into(), runs: scale(6000, 600_000), max_stmts: ms, workloads: vec!["gen", "corpus", "abi", "pipe"], backends: vec![X86], check_heap: false, hostile: true },
-        "C07" => CheckCfg { id: id.into(), runs: scale(6000, 600_000), max_stmts: ms, workloads: vec!["gen", "corpus", "abi", "pipe"], backends: vec![A64], check_heap: false, hostile: true },
-        "C08" => CheckCfg { id: id.into(), runs: scale(5000, 500_000), max_stmts: ms, workloads: vec!["gen-rv", "corpus", "pipe-rv"], backends: vec![Rv, X86, A64], check_heap: false, hostile: true },
+        "C06" => CheckCfg { id: id.into(), runs: scale(6000, 600_000), max_stmts: ms, workloads: vec!["gen", "corpus", "abi", "pipe", "ops"], backends: vec![X86], check_heap: false, hostile: true },
+        "C07" => CheckCfg { id: id.into(), runs: scale(6000, 600_000), max_stmts: ms, workloads: vec!["gen", "corpus", "abi", "pipe", "ops"], backends: vec![A64], check_heap: false, hostile: true },
+        "C08" => CheckCfg { id: id.into(), runs: scale(5000, 500_000), max_stmts: ms, workloads: vec!["gen-rv", "corpus", "pipe-rv", "ops-rv"], backends: vec![Rv, X86, A64], check_heap: false, hostile: true },
         "C09" => CheckCfg { id: id.into(), runs: scale(2500, 400_000), max_stmts: ms, workloads: vec!["gen", "gen-rv", "loop", "loop2", "corpus", "pipe"], backends: vec![X86, A64, Rv], check_heap: true, hostile: false },
         "C10" => CheckCfg { id: id.into(), runs: scale(2000, 200_000), max_stmts: ms, workloads: vec!["loop2", "loop", "gen"], backends: vec![X86, A64, Rv], check_heap: true, hostile: false },
         "C11" => CheckCfg { id: id.into(), runs: scale(12000, 1_500_000), max_stmts: ms, workloads: vec!["subst"], backends: vec![X86, A64, Rv], check_heap: true, hostile: false },
@@ -173,7 +182,7 @@ pub struct Known {
 }
 
 pub fn load_known() -> KnownFile {
-    match std::fs::read_to_string(format!("{VERIF_DIR}/known_findings.json")) {
+    match std::fs::read_to_string(format!("{}/known_findings.json", verif_dir())) {
         Ok(s) => serde_json::from_str(&s).unwrap_or_default(),
         Err(_) => KnownFile::default(),
     }
@@ -190,7 +199,7 @@ pub fn known_match<'a>(k: &'a KnownFile, prop: &str, class: &str, backend: &str,
 }
 
 pub fn write_replay(rp: &Replay) -> String {
-    let dir = format!("{VERIF_DIR}/replays/{}", rp.property);
+    let dir = format!("{}/replays/{}", verif_dir(), rp.property);
     let _ = std::fs::create_dir_all(&dir);
     let body = serde_json::to_string_pretty(rp).unwrap();
     let h = crate::prng::hash_str(&body);
@@ -420,6 +429,6 @@ pub fn write_evidence(id: &str, tier: &str, seed: u64, cfg: &CheckCfg, st: &Stat
         "wall_s": wall,
         "violations": violations
     });
-    let _ = std::fs::create_dir_all(format!("{VERIF_DIR}/evidence"));
-    std::fs::write(format!("{VERIF_DIR}/evidence/{id}.json"), serde_json::to_string_pretty(&ev).unwrap()).expect("write evidence");
+    let _ = std::fs::create_dir_all(format!("{}/evidence", verif_dir()));
+    std::fs::write(format!("{}/evidence/{id}.json", verif_dir()), serde_json::to_string_pretty(&ev).unwrap()).expect("write evidence");
 }
